@@ -24,6 +24,7 @@ import (
 	"verif/harness/gen"
 	"verif/harness/logcap"
 	"verif/harness/mredis"
+	"verif/harness/ref"
 	"verif/harness/stats"
 )
 
@@ -34,6 +35,8 @@ type e2eScript struct {
 	dropAt int             // drop the link after this command index (-1 never)
 	mode   string          // fresh | resume-continue | resume-fullresync
 	pre    []int           // keep-alive newlines in front of each command
+	// shard slot range of the sync node (-1,-1: not a cluster shard): the checkpoint key must hash inside it (C15)
+	slotL, slotR int
 }
 
 func (s e2eScript) String() string {
@@ -56,7 +59,7 @@ func (s e2eScript) String() string {
 }
 
 func drawE2E(t *rapid.T) e2eScript {
-	s := e2eScript{dropAt: -1}
+	s := e2eScript{dropAt: -1, slotL: -1, slotR: -1}
 	s.mode = rapid.SampledFrom([]string{"fresh", "fresh", "resume-continue", "resume-fullresync"}).Draw(t, "mode")
 	s.start = rapid.SampledFrom([]int64{0, 999, 1 << 33}).Draw(t, "start")
 	if s.mode != "fresh" && s.start == 0 {
@@ -188,7 +191,7 @@ func runE2E(s e2eScript, id int, loader bool) (sig, msg string) {
 		// nil connection when a reconnect to a vanished source fails, which would kill the whole test process
 		time.AfterFunc(4*time.Second, func() { tgt.Close() })
 	}()
-	node := &slot.SyncNode{Id: id, Source: src.Addr(), SourcePassword: srcSentinel, Target: []string{tgt.Addr()}, TargetPassword: tgtSentinel, SlotLeftBoundary: -1, SlotRightBoundary: -1}
+	node := &slot.SyncNode{Id: id, Source: src.Addr(), SourcePassword: srcSentinel, Target: []string{tgt.Addr()}, TargetPassword: tgtSentinel, SlotLeftBoundary: s.slotL, SlotRightBoundary: s.slotR}
 	ds := dbSync.NewDbSyncer(node, 9320, semaphore.NewWeighted(4))
 	// the per-syncer status document as it looks after the run (restarts included) is scanned for the password sentinels (C19)
 	defer func() {
@@ -234,6 +237,23 @@ func runE2E(s e2eScript, id int, loader bool) (sig, msg string) {
 	}
 	if strings.Join(got, ",") != strings.Join(want, ",") {
 		return "e2e:data", fmt.Sprintf("target applied %v, source sent %v", got, want)
+	}
+	if s.slotL >= 0 {
+		// the syncer of a cluster shard: whatever key it stores its checkpoint under hashes into the shard's own slot range
+		n := 0
+		for _, cm := range log {
+			if cm.Name == "hset" && len(cm.Argv) == 4 && strings.HasSuffix(string(cm.Argv[2]), "-offset") {
+				n++
+				key := string(cm.Argv[1])
+				if sl := ref.Slot(cm.Argv[1]); sl < s.slotL || sl > s.slotR || !strings.HasPrefix(key, "redis-shake-checkpoint") {
+					return "e2e:checkpoint-key-range", fmt.Sprintf("the syncer of the shard with slots [%d,%d] stores its checkpoint under %q, which hashes to slot %d", s.slotL, s.slotR, key, sl)
+				}
+			}
+		}
+		if n == 0 && len(want) > 0 {
+			return "e2e:no-checkpoint", "data was applied but no checkpoint was stored"
+		}
+		return "", "" // everything else about these runs is C08's / C14's to judge (with the plain key name)
 	}
 	if s.dropAt >= 0 {
 		var ps string
@@ -359,7 +379,16 @@ func runE2E(s e2eScript, id int, loader bool) (sig, msg string) {
 		if !res.Completed || err != nil {
 			return "e2e:loader-refused", fmt.Sprintf("LoadCheckpoint failed on the state the sender left behind: %v %v", err, res)
 		}
-		if runid != c08RunID || offset != lastOff {
+		// the sender may still be flushing (e.g. the group of a trailing SELECT after a reconnect): any offset it stored
+		// from the last one seen before the load up to now is a correct answer
+		allowed := map[int64]bool{lastOff: true}
+		for _, cm := range tgt.LogCopy()[len(log):] {
+			if cm.Name == "hset" && len(cm.Argv) == 4 && strings.HasSuffix(string(cm.Argv[2]), "-offset") {
+				o, _ := strconv.ParseInt(string(cm.Argv[3]), 10, 64)
+				allowed[o] = true
+			}
+		}
+		if runid != c08RunID || !allowed[offset] {
 			return "e2e:loader-disagrees", fmt.Sprintf("the sender ran under run id %q and last stored offset %d; the loader reads back (run id %q, offset %d, db %d)", c08RunID, lastOff, runid, offset, db)
 		}
 	}
@@ -379,7 +408,11 @@ func c14E2EBatch(t *rapid.T) { e2eBatch(t, "C14") }
 // offset equal to the source position of the data applied with it, also when the run itself started from a checkpoint.
 func c04E2EBatch(t *rapid.T) { e2eBatch(t, "C04") }
 
+// c15E2EBatch: the same runs for the syncer of a cluster shard, judged on the checkpoint key it chooses.
+func c15E2EBatch(t *rapid.T) { e2eBatch(t, "C15") }
+
 var e2eSigsOf = map[string][]string{
+	"C15": {"e2e:checkpoint-key-range", "e2e:no-checkpoint"},
 	"C14": {"e2e:checkpoint-runid", "e2e:loader-"},
 	"C04": {"e2e:checkpoint-offset", "e2e:data", "e2e:no-checkpoint", "e2e:checkpoint-runid"},
 }
@@ -398,6 +431,11 @@ func e2eBatch(t *rapid.T, prop string) {
 		}
 		if prop == "C04" && scripts[i].mode == "fresh" && i%2 == 0 {
 			scripts[i].mode = "resume-continue"
+		}
+		if prop == "C15" {
+			scripts[i].mode = "fresh"
+			r := rapid.SampledFrom([][2]int{{0, 5460}, {0, 0}, {0, 16383}, {5461, 10922}, {10923, 16383}, {1, 16383}, {12866, 12866}, {16383, 16383}}).Draw(t, "shard")
+			scripts[i].slotL, scripts[i].slotR = r[0], r[1]
 		}
 		if scripts[i].mode != "fresh" && scripts[i].start == 0 {
 			scripts[i].start = 999
@@ -442,3 +480,4 @@ func e2eBatch(t *rapid.T, prop string) {
 func TestC08EndToEnd(t *testing.T) { rapid.Check(t, c08E2EBatch) }
 func TestC14EndToEnd(t *testing.T) { rapid.Check(t, c14E2EBatch) }
 func TestC04EndToEnd(t *testing.T) { rapid.Check(t, c04E2EBatch) }
+func TestC15EndToEnd(t *testing.T) { rapid.Check(t, c15E2EBatch) }
